@@ -183,8 +183,8 @@ func report(o *Options, res *runResult, smtDir string, wall time.Duration) int {
 				continue
 			}
 			if expectedSet[key] {
-				path := writeReplayNote(replayDir, ob.Unit, ob.Name, "obligation was discharged on the reference tree and is now undecided\n"+ob.Desc+"\nsolver output:\n"+ob.Output)
-				violations = append(violations, violation{ob.Unit, ob.Name, "was discharged, now undecided", path, false})
+				path, confirmed := replayObligationMode(o, res, ob, replayDir, smtDir, false, "obligation was discharged on the reference tree and is now undecided\n\n")
+				violations = append(violations, violation{ob.Unit, ob.Name, "was discharged, now undecided", path, confirmed})
 			} else if expectedFamilies[ob.Unit+"::"+family(ob.Name)] {
 				// a new instance (another back edge, call site or ordinal) of a contract clause
 				// that was discharged on the reference tree
